@@ -70,6 +70,11 @@ def table():
         for a in A[:10]:
             for b in B[:10]:
                 rows.append((f"({{0}} {op} {{1}})", [a, b]))
+    # tiny / huge magnitudes: the folded literal has its own formatting branch for |v| < 0.1
+    for a in (1e-16, 2.5e-30, 1.380649e-23, 3e-300, 1e300):
+        for b in (1e-16, 3, 7e-9, 1e-300):
+            rows.append(("({0} * {1})", [a, b]))
+            rows.append(("({0} / {1})", [a, b]))
     for op, A in UNOPS.items():
         for a in A:
             rows.append((f"({op}{{0}})", [a]))
